@@ -20,6 +20,9 @@ FLAGS_TS = FlagParser.initialize(['--threadless', '--enable-web-server', '--enab
                                   '--disable-http-proxy', '--min-compression-length', '1000'])
 FLAGS_GZ = FlagParser.initialize(['--threadless', '--enable-web-server', '--enable-static-server', '--static-server-dir', ROOT,
                                   '--disable-http-proxy', '--min-compression-length', '20'])
+# the shipped dashboard plugin (a web-server plugin with routes below /dashboard/) next to the static server
+FLAGS_DASH = FlagParser.initialize(['--threadless', '--enable-web-server', '--enable-static-server', '--static-server-dir', ROOT,
+                                    '--disable-http-proxy', '--min-compression-length', '1000'], plugins=[b'proxy.dashboard.ProxyDashboard'])
 BIG = b'IN-big:' + b'0123456789' * 4
 FILES = {
     '/srv/a/a': b'IN-a', '/srv/a/b/a': b'IN-ba', '/srv/a/b/b': BIG, '/srv/a/e': b'',
@@ -109,7 +112,7 @@ def static(c0: int, c1: int, c2: int, c3: int, c4: int, c5: int, c6: int, c7: in
         cs_.append(k)
     fixed = CFG.get('prefix', '')
     path = b'/' + fixed.encode() + bytes(cs_)
-    flags = FLAGS_TS if CFG.get('trailing_slash_root') else (FLAGS_GZ if CFG.get('gzip') else FLAGS)
+    flags = FLAGS_TS if CFG.get('trailing_slash_root') else (FLAGS_GZ if CFG.get('gzip') else (FLAGS_DASH if CFG.get('dash') else FLAGS))
     del OPENED[:]
     try:
         h, out, td = _serve(flags, path)
@@ -198,6 +201,10 @@ def obligations(tier):
         m = 3 if tier == 'quick' else 4
         obs.append({'name': 'static.prefix[%s].n%d' % (prefix.replace('/', '|'), m), 'fn': 'static',
                     'cfg': {'n': m, 'prefix': prefix}, 'timeout': 600})
+    # with the dashboard plugin loaded: paths whose first segment is one of its routes still never leave the static directory
+    for prefix in ('dashboard/../', 'dashboard/../../', 'dashboard/a/../../../', 'dashboard//../'):
+        obs.append({'name': 'static.dashboard.prefix[%s].n3' % prefix.replace('/', '|'), 'fn': 'static',
+                    'cfg': {'n': 3, 'prefix': prefix, 'dash': True}, 'timeout': 600})
     # compressed replies: zlib is C code and gzip misbehaves under opcode tracing -> concrete vectors, natively (NOT a solver claim)
     vec = [[ord(c) for c in p] + [0] * (8 - len(p)) for p in ('b/b', 'b/b?', 'b/a', '../a', 'b/..', 'a?b/b', './b/b', 'b/./b')]
     for v in vec:
@@ -211,7 +218,7 @@ def obligations(tier):
 META = {
     'bounds': {
         'quick': 'request path = "/" + 5 symbolic characters over {/ . a b % 2 e ?} (32768 strings; a solver-decided ladder fixes each character per path), plus 8 concrete '
-                 'traversal prefixes followed by 3 symbolic characters; static root with and without trailing slash; file tree with files '
+                 'traversal prefixes followed by 3 symbolic characters (4 of them below /dashboard/ with the shipped dashboard plugin loaded); static root with and without trailing slash; file tree with files '
                  'inside the root, in sibling entries sharing the root\'s name prefix (/srv/ab/, /srv/aa, /srv/a.b), and one and two levels above',
         'thorough': '6 symbolic characters (262144 strings) and 4 after each prefix',
     },
